@@ -96,6 +96,49 @@ def inline_locals(fn, node, depth=4):
     return node
 
 
+def list_segments(expr, fn=None):
+    """a list-building expression as segments: `[a] + X + [b]` and `[a, *X, b]` both give [("elem", a), ("splat", X), ("elem", b)] (texts); an element
+    that is a local of fn assigned once reads as the expression it was assigned"""
+    single = {}
+    if fn is not None:
+        cnt = {}
+        for x in ast.walk(fn):
+            if isinstance(x, ast.Name) and isinstance(x.ctx, ast.Store):
+                cnt[x.id] = cnt.get(x.id, 0) + 1
+        for x in ast.walk(fn):
+            if isinstance(x, ast.Assign) and len(x.targets) == 1 and isinstance(x.targets[0], ast.Name) and cnt.get(x.targets[0].id) == 1:
+                single[x.targets[0].id] = x.value
+    def seg(e):
+        if isinstance(e, ast.BinOp) and isinstance(e.op, ast.Add):
+            return seg(e.left) + seg(e.right)
+        if isinstance(e, ast.List):
+            out = []
+            for el in e.elts:
+                if isinstance(el, ast.Starred):
+                    out.append(("splat", unparse(el.value)))
+                else:
+                    if isinstance(el, ast.Name) and el.id in single:
+                        el = single[el.id]
+                    out.append(("elem", unparse(el)))
+            return out
+        return [("splat", unparse(e))]
+    return seg(expr)
+
+
+def class_level_names(program, cname):
+    """names bound in the class bodies along cname's MRO (class attributes: readable on every instance without any constructor assignment)"""
+    out = set()
+    for c in program.mro(cname):
+        ci = program.classes.get(c)
+        if ci is None:
+            continue
+        for st in ci.node.body:
+            for tg in (st.targets if isinstance(st, ast.Assign) else [st.target] if isinstance(st, ast.AnnAssign) and st.value is not None else []):
+                if isinstance(tg, ast.Name):
+                    out.add(tg.id)
+    return out
+
+
 def items_as_lookups(comp):
     """a structural copy of a comprehension in which `for k, v in D.items()` (D without calls, k and v plain names) reads `for k in D` with v spelled D[k]:
     the two iterate the same keys in the same order and bind the same values"""
